@@ -38,6 +38,7 @@ type c03ConcScenario struct {
 }
 
 type c03ConcReplay struct {
+	Stmt     bool            `json:"statement_level_scheduling"`
 	Kind     string          `json:"kind"`
 	Scenario c03ConcScenario `json:"scenario"`
 	Choices  []int           `json:"choices"`
@@ -262,52 +263,57 @@ func c03Concurrent(c *Ctx) {
 				c.Note("concurrent scenario %+v: statement paths differ between identical executions (map iteration order?): explored with access-based scheduling points only", sc)
 			}
 		}
-		stats := explore.Run(explore.Config{MaxCost: bound, Deadline: c.Deadline, Shard: c.Shard, Shards: c.Shards, ShardDepth: 2, TolerateDivergence: true, MaxDivergences: 16}, func(x *explore.Exec, own bool) {
-			out, o, berr := c03ConcBody(px, sc, c.Seed, x)
-			if !own {
-				return
+		for _, pass := range concPasses(bound, len(vrt.AllStatements) > 0) {
+			if !pass.stmt {
+				vrt.AllStatements = nil
 			}
-			if strings.HasPrefix(berr, "HARNESS") {
-				c.Error("C03 concurrent %+v: %s", sc, berr)
-				return
-			}
-			c.Inc("evaluations")
-			c.Inc("conc_executions")
-			c.Inc("traces_validated_against_impl")
-			c.Add("transitions", int64(out.Steps))
-			c.SetMax("conc_max_steps_per_execution", int64(out.Steps))
-			order := sched.DescribeOrder(out.Order)
-			c.Distinct("distinct_nontrivial", fmt.Sprintf("conc|%d|%s", si, order))
-			c.Distinct("conc_distinct_outcome_pairs", fmt.Sprintf("%d|%v", si, o))
-			rp := c03ConcReplay{Kind: "concurrent-callbacks", Scenario: sc, Choices: x.Choices(), Order: order}
-			what, key := berr, "C03/concurrent/"
-			if berr != "" {
-				key += strings.Fields(berr)[0]
-			} else if what = check(o); what != "" {
-				key += "not-linearizable"
-				for i, name := range sc.Reqs {
-					if strings.HasPrefix(name, "f") && !strings.Contains(o[i], "session-cookie=false then-user=nobody") {
-						key = "C03/concurrent/session-for-other-login-state"
+			stats := explore.Run(explore.Config{MaxCost: pass.bound, Deadline: c.Deadline, Shard: c.Shard, Shards: c.Shards, ShardDepth: 2, TolerateDivergence: true, MaxDivergences: 16}, func(x *explore.Exec, own bool) {
+				out, o, berr := c03ConcBody(px, sc, c.Seed, x)
+				if !own {
+					return
+				}
+				if strings.HasPrefix(berr, "HARNESS") {
+					c.Error("C03 concurrent %+v: %s", sc, berr)
+					return
+				}
+				c.Inc("evaluations")
+				c.Inc("conc_executions")
+				c.Inc("traces_validated_against_impl")
+				c.Add("transitions", int64(out.Steps))
+				c.SetMax("conc_max_steps_per_execution", int64(out.Steps))
+				order := sched.DescribeOrder(out.Order)
+				c.Distinct("distinct_nontrivial", fmt.Sprintf("conc|%d|%s", si, order))
+				c.Distinct("conc_distinct_outcome_pairs", fmt.Sprintf("%d|%v", si, o))
+				rp := c03ConcReplay{Kind: "concurrent-callbacks", Stmt: len(vrt.AllStatements) > 0, Scenario: sc, Choices: x.Choices(), Order: order}
+				what, key := berr, "C03/concurrent/"
+				if berr != "" {
+					key += strings.Fields(berr)[0]
+				} else if what = check(o); what != "" {
+					key += "not-linearizable"
+					for i, name := range sc.Reqs {
+						if strings.HasPrefix(name, "f") && !strings.Contains(o[i], "session-cookie=false then-user=nobody") {
+							key = "C03/concurrent/session-for-other-login-state"
+						}
 					}
 				}
-			}
-			if what == "" {
-				return
-			}
-			rp.What = what
-			c.confirm(key, fmt.Sprintf("%+v: %s [thread order %s]", sc, what, order), len(rp.Choices), rp, func() (string, bool) {
-				_, o2, e2 := c03ConcBody(px, sc, c.Seed, explore.Replay(rp.Choices, nil))
-				return key, e2 != "" || check(o2) != ""
+				if what == "" {
+					return
+				}
+				rp.What = what
+				c.confirm(key, fmt.Sprintf("%+v: %s [thread order %s]", sc, what, order), len(rp.Choices), rp, func() (string, bool) {
+					_, o2, e2 := c03ConcBody(px, sc, c.Seed, explore.Replay(rp.Choices, nil))
+					return key, e2 != "" || check(o2) != ""
+				})
 			})
-		})
-		c.Add("states", int64(stats.Executions))
-		vrt.AllStatements = every
-		if stats.Divergences > 0 {
-			c.Unstable("concurrent scenario %+v: %d executions did not reproduce their replayed prefix", sc, stats.Divergences)
-		}
-		if !stats.Exhaustive {
-			c.Exhaustive = false
-			c.Note("concurrent part %+v: not exhaustive (level completed %d)", sc, stats.LevelCompleted)
+			c.Add("states", int64(stats.Executions))
+			vrt.AllStatements = every
+			if stats.Divergences > 0 {
+				c.Unstable("concurrent scenario %+v: %d executions did not reproduce their replayed prefix", sc, stats.Divergences)
+			}
+			if !stats.Exhaustive {
+				c.Exhaustive = false
+				c.Note("concurrent part %+v: not exhaustive (level completed %d)", sc, stats.LevelCompleted)
+			}
 		}
 	}
 }
@@ -319,6 +325,9 @@ func c03ConcReplayOne(c *Ctx, rp c03ConcReplay) string {
 	vatomic.Hooks = false
 	vrt.Enabled = true
 	vrt.AllStatements = map[string]bool{"pkg/cookies": true, "pkg/encryption": true}
+	if !rp.Stmt {
+		vrt.AllStatements = nil
+	}
 	defer func() { vrt.Enabled = false; vrt.AllStatements = nil }()
 	up := world.NewUpstream("c03conc")
 	defer up.Close()
